@@ -67,6 +67,7 @@ func concDirect(cs concSpec) map[string]any {
 	var mu sync.Mutex
 	results := []opRes{}
 	parseFails := 0
+	parses := []any{}
 	var wg sync.WaitGroup
 	start := make(chan struct{})
 	for g := 0; g < cs.Goroutines; g++ {
@@ -85,11 +86,29 @@ func concDirect(cs concSpec) map[string]any {
 			for i := 0; i < cs.OpsEach; i++ {
 				if len(cs.ParseSrcs) > 0 && rng.Intn(3) == 0 {
 					src := cs.ParseSrcs[rng.Intn(len(cs.ParseSrcs))]
-					if _, err := parser.ParsePipeline("p.p", src); err != nil {
-						mu.Lock()
+					// a concurrent parse: its outcome (tree or rejection) is judged like a solo parse
+					pr := map[string]any{"k": "parse", "src": hx(src), "want": nil, "id": fmt.Sprintf("g%d.%d", g, i)}
+					func() {
+						defer func() {
+							if r := recover(); r != nil {
+								pr["parse_death"] = "panic " + fmt.Sprint(r)
+							}
+						}()
+						stmts, err := parser.ParsePipeline("p.p", src)
+						pr["has_err"] = err != nil
+						if err != nil {
+							pr["msg"] = err.Error()
+						}
+						if stmts != nil {
+							pr["ast"] = newDumper().nodes(stmts)
+						}
+					}()
+					mu.Lock()
+					if pr["has_err"] == true {
 						parseFails++
-						mu.Unlock()
 					}
+					parses = append(parses, pr)
+					mu.Unlock()
 					continue
 				}
 				entry := cs.Entries[rng.Intn(len(cs.Entries))]
@@ -141,6 +160,7 @@ func concDirect(cs concSpec) map[string]any {
 			"sigk": 0, "hassig": true, "loaderrs": loadErrs, "asts": asts, "fns": fnNames(), "obs": r.obs, "strict": true,
 			"id": fmt.Sprintf("g%d.%d", r.g, r.i)})
 	}
+	ops = append(ops, parses...)
 	return map[string]any{"k": "hist", "ops": ops, "goroutines": cs.Goroutines}
 }
 
@@ -154,13 +174,19 @@ func genC16(e *emitter, tier string, seed int64) {
 		{"err.p", "z = 0\nadd_key(before, 1)\nx = 1 / z\n"},
 		// engines with internal state (the SQL obfuscator adapts to what it has seen): every run as if alone
 		{"sql.p", "sql_cover(message)\np(get_key(message))\nurl_decode(url)\n"},
+		// one grok text under two different local definitions of the pattern it names
+		{"code1.p", "add_pattern(\"code\", \"\\\\d+\")\ngrok(_, \"%{WORD:w} %{code:c}\")\np(get_key(w), get_key(c))\n"},
+		{"code2.p", "add_pattern(\"code\", \"[a-z]+\")\nif true {\n  grok(_, \"%{WORD:w} %{code:c}\")\n}\np(get_key(w), get_key(c))\n"},
+		{"code3.p", "if true {\n  add_pattern(\"code\", \"4\")\n  grok(_, \"%{WORD:w} %{code:c}\")\n}\nadd_pattern(\"code\", \".+\")\ngrok(_, \"%{WORD:w} %{code:c}\")\np(get_key(w), get_key(c))\n"},
 	}
-	entries := []string{"grok.p", "use.p", "lib.p", "misc.p", "err.p", "sql.p", "sql.p"}
-	parseSrcs := []string{"a = 1\nif a {\n  b = [1, 2]\n}\n", "x = \"str\" # c\nfor i = 0; i < 3; i = i + 1 {\n}\n", "broken ( [", "'''multi\nline'''\n", "f(a = 1, 2 +)", "use(\"q.p\")\n"}
+	entries := []string{"grok.p", "use.p", "lib.p", "misc.p", "err.p", "sql.p", "sql.p", "code1.p", "code2.p", "code3.p"}
+	parseSrcs := []string{"a = 1\nif a {\n  b = [1, 2]\n}\n", "x = \"str\" # c\nfor i = 0; i < 3; i = i + 1 {\n}\n", "broken ( [", "'''multi\nline'''\n", "f(a = 1, 2 +)", "use(\"q.p\")\n",
+		"x = (1 + [2", "y = f(1))\n", "}\n", "a = [1, 2]]\n", "m = {\"k\": (1\n", "z = a[1\n", "if x {\n  y = 1\n", "f(g(h(1, [2, {\"a\": 3}])))\n", "v = (1 + 2) * [3][0]\n"}
 	points := []pointSpec{
 		{Meas: "m", Time: 1600000000000000000, Fields: []fieldSpec{{"message", "str", "hello 42"}, {"f1", "int", "7"}, {"ts", "str", "2021-03-15T00:08:10Z"}, {"url", "str", "/a/123/b/45"}}, Tags: [][2]string{{"t1", "tv"}}},
 		{Meas: "o", Time: 5, Fields: []fieldSpec{{"message", "str", "x"}, {"f1", "float", "4609434218613702656"}}},
 		{Meas: "o", Time: 5, Fields: []fieldSpec{{"message", "str", "abc 7"}, {"ts", "str", "junk"}}},
+		{Meas: "o", Time: 9, Fields: []fieldSpec{{"message", "str", "abc def"}}},
 		{Meas: "q", Time: 6, Fields: []fieldSpec{{"message", "str", "select * from t where a = 'C:\\' AND b = 'z'"}}},
 		{Meas: "q", Time: 7, Fields: []fieldSpec{{"message", "str", "select * from t where a = 'x\\' OR b = ' OR 1=1 -- \\' "}}},
 		{Meas: "q", Time: 8, Fields: []fieldSpec{{"message", "str", "select * from t where n = 'it\\'s'"}}},
